@@ -44,7 +44,7 @@ LEVEL_TEXT = (
 LEVEL_NOTE = "Trusted: Python == on values inside each serializer's lossless domain (workloads/values.py), deep copies as ground truth. Injectivity of the identity encoding is sampled, not proved."
 MINIMIZE = None
 RULE = (
-    "one run = stack x serializer x min_size_to_cache x local_cache_size x disable options x 10-30 operations; non-trivial = at least one "
+    "one run = stack x serializer x min_size_to_cache x local_cache_size x disable options x 10-30 operations (submit / read / run / evict / mutate / content addressing with near-collisions, adversarial identity pairs, purge by the other party); non-trivial = at least one "
     "value was externalised and read back both through the LRU and from the store; distinct = hash of configuration + op sequence."
 )
 ASSUMPTIONS = [
